@@ -94,3 +94,54 @@ def certain_events(prog, scripts, inp):
 def base_input(rng, nitems=3):
     d = gen.base_input(rng, nitems)
     return d
+
+
+def cancel_cases(check, rn, prefix, nfin, nnever, kmax_quick=14, sched_points=0):
+    """Builds cancellation cases at logical instants. Returns list of (case, sem, g)."""
+    from . import runfam
+    items = []
+    idx = [0]
+
+    def add(g, **opts):
+        c, s = runfam.build_case("%s-%05d" % (prefix, idx[0]), g, **opts)
+        idx[0] += 1
+        items.append((c, s, g))
+
+    fin = []
+    for i in range(nfin):
+        rng = random.Random(derive_seed(check.seed, prefix + "-fin", i))
+        sh = FINISHING[i % len(FINISHING)]
+        prog, scripts, name = prog_finishing(rng, sh)
+        fin.append({"program": prog, "scripts": scripts, "input": base_input(rng), "shape": name})
+    rec_items = []
+    for i, g in enumerate(fin):
+        case, sem = runfam.build_case("%s-rec-%03d" % (prefix, i), g, plan={"record": True}, plan_scope="execute")
+        rec_items.append((case, sem, g))
+    rec = rn.run_cases([c for c, _s, _g in rec_items])
+    for (case, sem, g) in rec_items:
+        o = rec.get(case["id"], {})
+        if "result" not in o:
+            continue
+        k_total = len(o["result"].get("events") or [])
+        ks = list(range(1, k_total + 1))
+        if check.quick() and len(ks) > kmax_quick:
+            ks = sorted(random.Random(derive_seed(check.seed, case["id"])).sample(ks, kmax_quick))
+        for k in ks:
+            add(dict(g, shape=g["shape"] + "/cancel@%d" % k, cancel=("seq", k)), triggers=[{"seq": k, "action": "cancel:0"}])
+        if sched_points:
+            hits = sorted((o["result"].get("hits") or {}).items())
+            rng = random.Random(derive_seed(check.seed, case["id"], "pts"))
+            rng.shuffle(hits)
+            for point, cnt in hits[:sched_points]:
+                h = rng.choice([1, cnt])
+                add(dict(g, shape=g["shape"] + "/cancel@%s#%d" % (point, h), cancel=("point", point, h)),
+                    plan={"sites": [{"point": point, "hit": h, "action": "cancel:0"}], "record": True}, plan_scope="execute")
+    for i in range(nnever):
+        rng = random.Random(derive_seed(check.seed, prefix + "-never", i))
+        prog, scripts, name = NEVER_ENDING[i % len(NEVER_ENDING)](rng)
+        inp = base_input(rng)
+        evs, _sem = certain_events(prog, scripts, inp)
+        for (kind, src, nth) in evs:
+            g = {"program": prog, "scripts": scripts, "input": inp, "shape": "%s/cancel@%s:%s#%d" % (name, kind, src, nth), "cancel": (kind, src, nth)}
+            add(g, triggers=[{"kind": kind, "src": src, "nth": nth, "action": "cancel:0"}])
+    return items
